@@ -344,20 +344,27 @@ def _expr_env(b, operand, env, multi, depth, stack):
     return inner
 
 
-def expr_alts(b, operand, cap=16):
-    """every way `operand` can be computed: one expression tree per consistent choice among the
-    definitions of the multiply-defined locals it goes through (choices are correlated: a local used
-    twice gets the same definition both times).  Returns (trees, complete)."""
+def expr_alts_env(b, operand, cap=16):
+    """[(tree, env)] and completeness: like expr_alts, with the choices that lead to each tree
+    (env: multiply-defined local -> index of the chosen definition; ('comb', bb) -> 0 Some/Ok arm, 1 other arm)"""
     out = []; work = [{}]; complete = True
     while work:
         if len(out) >= cap: complete = False; break
         env = work.pop()
         multi = set()
         e = _expr_env(b, operand, env, multi, 24, frozenset())
-        if not multi: out.append(e); continue
+        if not multi: out.append((e, env)); continue
         l = min(multi, key=str)
         for i in range(2 if isinstance(l, tuple) else len(whole_defs(b, l))): work.append({**env, l: i})
     return out, complete
+
+
+def expr_alts(b, operand, cap=16):
+    """every way `operand` can be computed: one expression tree per consistent choice among the
+    definitions of the multiply-defined locals it goes through (choices are correlated: a local used
+    twice gets the same definition both times).  Returns (trees, complete)."""
+    out, complete = expr_alts_env(b, operand, cap)
+    return [e for e, env in out], complete
 
 
 def local_op(l):
@@ -671,6 +678,116 @@ def result_field_source(ctx, body, adt, field, _depth=0):
     return None
 
 
+# ---- optional parts: probing the Some / None cases ---------------------------------------------
+# An absent optional linear part means zero, so an operator must carry each operand's linear part into the result in
+# every case where it is present.  The rules probe the presence cases one by one: the CFG is walked with every test of
+# the presence of an operand's `linear` resolved for the case, and of the alternatives of a stored value only those
+# are kept whose definitions lie on such a path / whose combinator arm is the one taken in the case.
+# How presence propagates through Option values (one comment per entry):
+PRESENCE_SAME = ('take', 'as_ref', 'as_mut', 'as_deref', 'as_deref_mut', 'cloned', 'copied', 'clone', 'map', 'inspect')   # Some iff the receiver is
+PRESENCE_BOTH = ('zip', 'and')            # Some iff both are  (zip: the pair; and: the second)
+PRESENCE_EITHER = ('or',)                 # Some iff one of them is
+#   xor: exactly one;  filter / and_then: None if the receiver is None, else unknown;  Some(..) / None literals
+
+
+def linear_param(tree):
+    """p if the tree is the Option `linear` field of parameter p itself (not its payload)"""
+    t = T.strip_wrappers(tree)
+    if t[0] == 'place' and t[2] and t[2][-1][1] == 'linear' and _adt_is(t[2][-1][0], 'v1::Quadratic') and 1 <= t[1] <= 2: return t[1]
+    return None
+
+
+def presence(tree, case):
+    """'some' | 'none' | None (unknown) of an Option-valued tree when operand p's linear part is case[p]"""
+    p = linear_param(tree)
+    if p is not None: return case.get(p)
+    t = tree
+    if t[0] == 'agg':
+        if t[1].endswith('Option::Some'): return 'some'
+        if t[1].endswith('Option::None'): return 'none'
+        return None
+    if t[0] == 'call' and 'option::Option' in t[2] and t[3]:
+        a = presence(t[3][0], case)
+        if t[1] in PRESENCE_SAME: return a
+        if t[1] in PRESENCE_BOTH or t[1] in PRESENCE_EITHER or t[1] == 'xor':
+            c = presence(t[3][1], case) if len(t[3]) > 1 else None
+            if t[1] in PRESENCE_BOTH: return 'none' if 'none' in (a, c) else ('some' if a == c == 'some' else None)
+            if t[1] in PRESENCE_EITHER: return 'some' if 'some' in (a, c) else ('none' if a == c == 'none' else None)
+            return None if None in (a, c) else ('some' if a != c else 'none')
+        if t[1] in ('filter', 'and_then'): return 'none' if a == 'none' else None
+    return None
+
+
+def case_succ(b, bi, case):
+    """successors of block bi when the presence of the operands' linear parts is `case`"""
+    t = b.blocks[bi]['term']
+    if t['k'] != 'switch' or t['d']['k'] == 'const': return b.succ(bi)
+    e = _expr_env(b, t['d'], {}, set(), 16, frozenset())
+    m = {v: tg for v, tg in t['ts']}
+    if e[0] == 'discr':
+        pr = presence(e[1], case)
+        if pr is not None: return [m.get(1 if pr == 'some' else 0, t['else'])]
+    neg = False
+    while e[0] == 'un' and e[1] == 'Not': e = e[2]; neg = not neg
+    if e[0] == 'call' and e[1] in ('is_some', 'is_none') and 'option::Option' in e[2] and e[3]:
+        pr = presence(e[3][0], case)
+        if pr is not None:
+            val = (pr == 'some') == (e[1] == 'is_some')
+            if neg: val = not val
+            return [m.get(1 if val else 0, t['else'])]
+    return b.succ(bi)
+
+
+def case_reach(b, case, start=0, stop=()):
+    seen = set(); w = [start]
+    while w:
+        x = w.pop()
+        if x in seen or x in stop or b.blocks[x]['cleanup']: continue
+        seen.add(x)
+        w += case_succ(b, x, case)
+    return seen
+
+
+def case_must_pass(b, case, targets, via):
+    """every path from the entry to a target block that is possible in the case passes a block of `via`"""
+    return not (case_reach(b, case, 0, stop=set(via)) & set(targets))
+
+
+def feasible_alts(b, operand, case, reach):
+    """alternatives of `operand` that can occur in the case: definitions chosen lie on a case path, combinator arms
+    chosen are the ones the receiver's presence selects"""
+    out = []
+    alts, complete = expr_alts_env(b, operand)
+    for e, env in alts:
+        ok = True
+        for k, i in env.items():
+            if isinstance(k, tuple):
+                c = next((x for x in b.calls if x.bb == k[1]), None)
+                pr = presence(_expr_env(b, c.args[0], env, set(), 24, frozenset()), case) if c is not None else None
+                if (pr == 'none' and i % 2 == 0) or (pr == 'some' and i % 2 == 1): ok = False
+            else:
+                ds = whole_defs(b, k)
+                if ds[i % len(ds)][1] not in reach: ok = False
+        if ok: out.append(e)
+    return out, complete
+
+
+def carries_linear(ctx, b, e, p):
+    """the tree contains operand p's linear part (the Option itself or its payload)"""
+    return any(x[0] == 'place' and x[1] == p and any(f == 'linear' and _adt_is(a, 'v1::Quadratic') for a, f in x[2]) for x in T.expr_walk(e))
+
+
+def probe_stores(ctx, b, stores, case):
+    """(feasible alternatives of the values stored into `.linear` in the case, every case path to a return passes a store)"""
+    reach = case_reach(b, case)
+    alts = []
+    live = [s for s in stores if s[0] in reach]
+    for s in live:
+        if s[1] is not None: alts += feasible_alts(b, s[1], case, reach)[0]
+        else: alts.append(T._rv_expr(b, s[2]))
+    return alts, bool(live) and case_must_pass(b, case, return_blocks(b), {s[0] for s in live})
+
+
 # =============================================================================== C02.dispatch
 def payload_sources(ctx, b, operand, depth=0):
     """{(side, variant)} the operand may come from: side 0 = payload of self's oneof, 1 = of rhs's.
@@ -773,8 +890,21 @@ def _linear_part_rule(ctx, b, rid):
         ctx.bad(rid, 'T-BRANCHFX', b.name, 'with and without an existing linear part the right operand must end up in the result\'s linear part: ' + '; '.join(probs), b.site())
     elif weak:
         weakly(ctx, rid, 'T-BRANCHFX', b, '; '.join(weak))
+        for name in ('lhs_some', 'lhs_none'): weakly(ctx, rid + '/case/' + name, 'T-BRANCHFX', b, 'stores not recognised: the presence cases cannot be probed')
     else:
         ctx.ok(rid, 'T-BRANCHFX', b.site(), stores=len(stores), alternatives=len(alts))
+        # the two presence cases of self's linear part
+        for pres in ('some', 'none'):
+            calts, passes = probe_stores(ctx, b, stores, {1: pres})
+            cp = []
+            if not passes: cp.append('a path returns without storing a linear part')
+            if pres == 'some':
+                lost = [e for e in calts if not combines(e)]
+                if lost: cp.append('the result\'s linear part can be %s, which is not `existing linear part + rhs`' % T.expr_str(lost[0], 3))
+            else:
+                lost = [e for e in calts if 2 not in expr_params(ctx, b, e)]
+                if lost: cp.append('the result\'s linear part can be %s, which drops the right operand' % T.expr_str(lost[0], 3))
+            ctx.check(not cp, rid + '/case/lhs_' + pres, 'T-BRANCHFX', b.name, 'linear part of self %s: %s' % ('present' if pres == 'some' else 'absent', '; '.join(cp)), b.site(), alternatives=len(calts))
 
 
 def scale_sites(ctx, b):
@@ -837,8 +967,23 @@ def branches_rules(ctx):
                 def lin(o): s_ = ctx.S.slice_operand(b, o); return 1 in s_.params and s_.has_field('v1::Quadratic', 'linear')
                 def rhs_(o): return T.strip_wrappers(T.expr(b, o))[:3] == ('place', 2, [])
                 if any(is_ops_call(c) and ops_kind(c.trait) == 'Mul' and len(c.args) == 2 and ((lin(c.args[0]) and rhs_(c.args[1])) or (lin(c.args[1]) and rhs_(c.args[0]))) for c in b.calls):
-                    weakly(ctx, rid, 'T-BRANCHFX', b, '`old linear part * rhs` exists but is not the value of a recognised store to the linear part'); continue
+                    weakly(ctx, rid, 'T-BRANCHFX', b, '`old linear part * rhs` exists but is not the value of a recognised store to the linear part')
+                    weakly(ctx, rid + '/case/lhs_some', 'T-BRANCHFX', b, 'stores not recognised: the presence case cannot be probed'); continue
             ctx.check(okv and okl, rid, 'T-BRANCHFX', b.name, 'scalar multiplication does not scale both the quadratic values and the linear part', b.site())
+            if okv and okl:
+                # a present linear part is scaled on every path that scales the values (the exact-zero shortcut aside)
+                case = {1: 'some'}
+                reach = case_reach(b, case)
+                live = [x for x in stores if x[0] in reach]
+                zt, _ = exact_zero_targets(b)
+                cp = []
+                if not live or not case_must_pass(b, case, return_blocks(b), {x[0] for x in live} | zt): cp.append('a path returns without storing the scaled linear part')
+                def scaled(e):
+                    return any((carries_linear(ctx, b, x[3][0], 1) and T.strip_wrappers(x[3][1])[:3] == ('place', 2, [])) or (carries_linear(ctx, b, x[3][1], 1) and T.strip_wrappers(x[3][0])[:3] == ('place', 2, [])) for x in ops_calls_in(e, 'Mul') if len(x[3]) == 2)
+                calts = [e for x in live if x[1] is not None for e in feasible_alts(b, x[1], case, reach)[0]]
+                lost = [e for e in calts if not scaled(e)]
+                if lost: cp.append('the result\'s linear part can be %s, which is not `linear part * rhs`' % T.expr_str(lost[0], 3))
+                ctx.check(not cp, rid + '/case/lhs_some', 'T-BRANCHFX', b.name, 'linear part of self present: %s' % '; '.join(cp), b.site(), alternatives=len(calts))
             continue
         if (lhs, op, rhs) == ('v1::Quadratic', 'Add', 'v1::Quadratic'):
             # result.linear is built from both operands' linear parts; where both exist they are added
@@ -852,9 +997,25 @@ def branches_rules(ctx):
                         if all(fl) and ((1 in ps[0] and 2 in ps[1]) or (2 in ps[0] and 1 in ps[1])): both = True
             ok = both and {(1, 'linear'), (2, 'linear')} <= roots and bool(stores) and T.must_pass(b, 0, return_blocks(b), {s[0] for s in stores})
             ctx.check(ok, rid, 'T-BRANCHFX', b.name, 'the linear part of the sum does not combine both operands\' linear parts', b.site())
+            # the four presence cases: an absent linear part is zero, so a present one must reach the result whatever the other is
+            for case, who in (({1: 'some', 2: 'none'}, (1,)), ({1: 'none', 2: 'some'}, (2,)), ({1: 'some', 2: 'some'}, (1, 2))):
+                alts, passes = probe_stores(ctx, b, stores, case)
+                name = '-'.join('%s_%s' % ('lhs' if p == 1 else 'rhs', case[p]) for p in (1, 2))
+                probs = []
+                if not passes: probs.append('a path returns without storing a linear part')
+                if len(who) == 1:
+                    lost = [e for e in alts if not carries_linear(ctx, b, e, who[0])]
+                    if lost: probs.append('the result\'s linear part can be %s, which drops the linear part of the %s operand' % (T.expr_str(lost[0], 3), 'left' if who[0] == 1 else 'right'))
+                else:
+                    def adds_both(e):
+                        return any(carries_linear(ctx, b, x[3][0], 1) and carries_linear(ctx, b, x[3][1], 2) or carries_linear(ctx, b, x[3][0], 2) and carries_linear(ctx, b, x[3][1], 1) for x in ops_calls_in(e, 'Add') if len(x[3]) == 2)
+                    if not any(adds_both(e) for e in alts): probs.append('the two linear parts are not added')
+                    lost = [e for e in alts if not (e[0] == 'agg' and e[1].endswith('Option::None')) and not (carries_linear(ctx, b, e, 1) and carries_linear(ctx, b, e, 2))]
+                    if lost: probs.append('the result\'s linear part can be %s, which does not contain both linear parts' % T.expr_str(lost[0], 3))
+                ctx.check(not probs, rid + '/case/' + name, 'T-BRANCHFX', b.name, 'linear part present in %s: %s' % (name, '; '.join(probs)), b.site(), alternatives=len(alts))
             continue
         _linear_part_rule(ctx, b, rid)
-    ctx.floor(R, 4)
+    ctx.floor(R, 12)
 
 
 def iter_rules(ctx):
@@ -878,6 +1039,13 @@ def iter_rules(ctx):
             probs, n = cone_constructions(ctx, b)
             ctx.check(n > 0 and not probs, R + '/%s/sorted-ids' % ty.lstrip('&').split('::')[-1], 'T-CARRY', b.name,
                       'the term iterator does not yield sorted ids however the operand is stored: %s' % ('; '.join(probs) or 'no SortedIds construction in its cone'), b.site())
+        if ty == '&v1::Quadratic':
+            # the linear part is enumerated whenever it is present (not only read somewhere)
+            case = {1: 'some'}
+            calts, complete = feasible_alts(b, local_op(0), case, case_reach(b, case))
+            lost = [e for e in calts if not carries_linear(ctx, b, e, 1)]
+            ctx.check(bool(calts) and not lost, R + '/Quadratic/linear-when-present', 'T-BRANCHFX', b.name,
+                      'with a linear part present the iterator can be %s, which does not enumerate it' % (T.expr_str(T.strip_wrappers(lost[0]), 2)[:80] if lost else 'nothing recognised'), b.site())
         restr = sorted({x.item for x in rs.call_objs if x.item in ('take', 'skip', 'step_by', 'take_while', 'skip_while', 'nth')})
         ctx.check(not restr, R + '/%s/all-terms' % ty.lstrip('&').split('::')[-1], 'T-LOOPMUST', b.name, 'iterator drops terms: %s' % restr, b.site())
     b = ctx.F.one('&v1::Function', 'into_iter', trait='IntoIterator')
